@@ -1,9 +1,42 @@
 (* C04 — tar <-> SquashFS conversion preserves the archive.  Statements only;
-   every proof is one [exact] of a lemma from coq/C04/*Proofs.v. *)
+   every proof is one [exact] of a lemma from coq/C04/*Proofs.v.
+
+   The models follow /repo with the four repairs of props/C04/fixes applied
+   (F21 --root-becomes retarget, F22 extension records of skipped entries,
+   F23 PAX xattr order, F24 sparse data beyond the file size). *)
 From Coq Require Import List NArith ZArith Bool.
-From SqfsV Require Import C04.TarNum C04.TarNumProofs.
+From SqfsV Require Import Gen.Constants C04.GenC04 C04.TarNum C04.TarNumProofs C04.TarHdr C04.TarHdrProofs
+     C04.TarStream C04.TarStreamProofs C04.TarArchiveProofs C18.CanonModel.
 Import ListNotations.
 Local Open Scope N_scope.
+
+(* ---- the byte layout the model splits a header block by is the one of
+        tar_header_t in include/tar/format.h (regenerated on every run) ---- *)
+Theorem layout_matches_headers :
+  c_TAR_RECORD_SIZE = 512 /\ sizeof_tar_header_t = 512 /\
+  off_tar_header_t_name = 0 /\ off_tar_header_t_mode = 100 /\ off_tar_header_t_uid = 108 /\
+  off_tar_header_t_gid = 116 /\ off_tar_header_t_size = 124 /\ off_tar_header_t_mtime = 136 /\
+  off_tar_header_t_chksum = 148 /\ off_tar_header_t_typeflag = 156 /\
+  off_tar_header_t_linkname = 157 /\ off_tar_header_t_magic = 257 /\
+  off_tar_header_t_version = 263 /\ off_tar_header_t_uname = 265 /\
+  off_tar_header_t_gname = 297 /\ off_tar_header_t_devmajor = 329 /\
+  off_tar_header_t_devminor = 337 /\ off_tar_header_t_tail = 345.
+Proof. repeat split. Qed.
+
+(* ... and so are the limits, type characters and window sizes the model uses
+   (coq/C04/GenC04.v is printed by the harness compiled against the working tree) *)
+Theorem constants_match_sources :
+  c04_TAR_MAX_SYMLINK_LEN = MAX_LEN /\ c04_TAR_MAX_PATH_LEN = MAX_LEN /\ c04_TAR_MAX_PAX_LEN = MAX_LEN /\
+  c04_TAR_MAX_SPARSE_ENT = 65536 /\ c04_TAR_RECORD_SIZE = 512 /\ c04_STREAM_BUFSZ = BUFSZ /\
+  c04_S_IFMT = S_IFMT /\ c04_S_IFSOCK = S_IFSOCK /\ c04_S_IFLNK = S_IFLNK /\ c04_S_IFREG = S_IFREG /\
+  c04_S_IFBLK = S_IFBLK /\ c04_S_IFDIR = S_IFDIR /\ c04_S_IFCHR = S_IFCHR /\ c04_S_IFIFO = S_IFIFO /\
+  c04_T_FILE = T_FILE /\ c04_T_LINK = T_LINK /\ c04_T_SLINK = T_SLINK /\ c04_T_CHR = T_CHR /\
+  c04_T_BLK = T_BLK /\ c04_T_DIR = T_DIR /\ c04_T_FIFO = T_FIFO /\ c04_T_GNU_SLINK = T_GNU_SLINK /\
+  c04_T_GNU_PATH = T_GNU_PATH /\ c04_T_GNU_SPARSE = T_GNU_SPARSE /\ c04_T_PAX = T_PAX /\
+  c04_T_PAX_GLOBAL = T_PAX_GLOBAL /\ c04_SPARSE_IN_HDR = 4 /\ c04_SPARSE_IN_EXT = 21 /\
+  c04_OFF_GNU_SPARSE = 41 /\ c04_OFF_GNU_ISEXT = 137 /\ c04_OFF_GNU_REALSIZE = 138 /\
+  c04_OFF_EXT_ISEXT = 504 /\ c04_SIZEOF_PREFIX = 155.
+Proof. repeat split. Qed.
 
 (* ---- numeric fields: write_number / write_number_signed vs read_number ---- *)
 
@@ -39,6 +72,116 @@ Theorem checksum_field_rt : forall c, c < 8 ^ 6 ->
 Proof. exact read_chksum_field. Qed.
 Print Assumptions checksum_field_rt.
 
+(* ---- one entry: decode (encode e) = e ---- *)
+
+(* For every entry, link target, xattr list and record counter the caller may
+   pass (wf_entry: NUL-free byte strings, 16-bit mode, ids below 127*2^56, any
+   64-bit size, any mtime but -2^63, 32-bit device number, names / targets /
+   PAX payload up to TAR_MAX_*_LEN = 65536, xattr keys without '=' and NUL —
+   no bound on which side of 100 bytes names and targets are, which of the
+   three number encodings the fields need, how many xattrs there are):
+   read_header consumes exactly the bytes write_tar_header produced — GNU 'K'
+   and 'L' records, the SCHILY.xattr PAX record, the header block — and
+   delivers the entry; whatever follows in the stream is left untouched. *)
+Theorem header_rt : forall e target xs counter rest b,
+  wf_entry e target xs ->
+  write_tar_header e target xs counter = W_Ok b ->
+  read_header (b ++ rest) = RH_Ok (decoded_of e target xs) rest.
+Proof. exact header_rt_l. Qed.
+Print Assumptions header_rt.
+
+(* the decoded mode of a non-link is the entry's mode *)
+Theorem header_rt_mode : forall m, m < 65536 -> perm m + ftype m = m.
+Proof. exact mode_recompose. Qed.
+
+(* what tar cannot express (sockets) is refused before anything is written *)
+Theorem unsupported_writes_nothing : forall e target xs counter,
+  write_tar_header e target xs counter = W_Unsupported <->
+  e_hardlink e = false /\ type_of_mode (e_mode e) = None.
+Proof. exact unsupported_iff. Qed.
+Print Assumptions unsupported_writes_nothing.
+
+(* the PAX record length prefix counts itself: "<len> key=value\n" *)
+Theorem pax_record_length : forall key value,
+  N.of_nat (length (schily_record (key, value))) = rec_len key value.
+Proof. exact schily_record_length. Qed.
+Print Assumptions pax_record_length.
+
+(* ---- sparse files: the stream handed out by the tar iterator ---- *)
+
+(* for EVERY map, file size, record contents, and every schedule (what the
+   consumer asks for, how much the underlying stream has buffered, how much
+   the consumer takes): a stream that reports end-of-file has delivered the
+   position-wise expansion of the map *)
+Theorem sparse_stream_spec : forall sched m fsize data out' data' pos',
+  stream_go sched m fsize 0 data [] = S_Done out' data' pos' ->
+  out' = fill (N.to_nat fsize) 0 m data.
+Proof. exact sparse_stream_spec_l. Qed.
+Print Assumptions sparse_stream_spec.
+
+(* ... never more than the file size, whatever the map claims (fix F24) *)
+Theorem sparse_stream_bounded : forall sched m fsize data out' data' pos',
+  stream_go sched m fsize 0 data [] = S_Done out' data' pos' ->
+  N.of_nat (length out') <= fsize.
+Proof. exact stream_go_bounded. Qed.
+Print Assumptions sparse_stream_bounded.
+
+(* ... the same bytes for every consumer *)
+Theorem sparse_stream_schedule_independent : forall s1 s2 m fsize data o1 d1 p1 o2 d2 p2,
+  stream_go s1 m fsize 0 data [] = S_Done o1 d1 p1 ->
+  stream_go s2 m fsize 0 data [] = S_Done o2 d2 p2 -> o1 = o2.
+Proof. exact stream_schedule_independent. Qed.
+
+(* ... and it terminates: every step makes progress, fsize steps are enough *)
+Theorem sparse_stream_terminates : forall sched m fsize data,
+  fsize <= N.of_nat (length sched) ->
+  match stream_go sched m fsize 0 data [] with S_More _ _ _ => False | _ => True end.
+Proof. exact sparse_stream_terminates_l. Qed.
+Print Assumptions sparse_stream_terminates.
+
+(* for every sorted, non-overlapping map inside the file size (any number of
+   entries, empty entries, GNU tar's end marker) the position-wise expansion
+   is the sequential one: holes are zeros, data comes from the record in order *)
+Theorem sparse_expand_ok : forall m data fsize,
+  m <> [] -> wf_map 0 m fsize -> map_bytes m <= N.of_nat (length data) ->
+  fill (N.to_nat fsize) 0 m data = expand 0 m data fsize.
+Proof. exact sparse_expand_ok_l. Qed.
+Print Assumptions sparse_expand_ok.
+
+(* ---- archives ---- *)
+
+(* sqfs2tar's output is a whole number of 512-byte records *)
+Theorem archive_len_512 : forall es,
+  Forall data_ok es -> (length (write_archive es) mod 512 = 0)%nat.
+Proof. exact archive_len_512_l. Qed.
+Print Assumptions archive_len_512.
+
+(* the tar iterator reads back every written entry — metadata, link target,
+   xattrs in order, file contents — skips nothing, invents nothing, and stops
+   at the terminator; entries tar cannot express are absent *)
+Theorem archive_rt : forall es,
+  Forall entry_ok es -> read_archive (write_archive es) = RA_Ok (views es).
+Proof. exact archive_rt_l. Qed.
+Print Assumptions archive_rt.
+
+(* ---- tar2sqfs --root-becomes link retargeting (fix F21) ---- *)
+Theorem retarget_keeps_foreign_targets : forall root link,
+  (forall r, canon_result link <> Some (root ++ 47 :: r)) -> retarget root link = link.
+Proof. exact retarget_untouched. Qed.
+Print Assumptions retarget_keeps_foreign_targets.
+
+Theorem retarget_moves_prefixed_targets : forall root link r,
+  canon_result link = Some (root ++ 47 :: r) -> retarget root link = 47 :: r.
+Proof. exact retarget_prefixed. Qed.
+
+(* the unpatched code violates the first of the two: "./a/../b" is stored as
+   "a/a/../b" *)
+Theorem retarget_corrupts_symlink_refuted :
+  exists root link, (forall r, canon_result link <> Some (root ++ 47 :: r)) /\
+                    retarget_old root link <> link.
+Proof. exact retarget_old_refuted. Qed.
+Print Assumptions retarget_corrupts_symlink_refuted.
+
 (* ---- non-vacuity ---- *)
 Example ex_num_oct7 : write_number 493 8 = [48;48;48;48;55;53;53;32].        (* "0000755 " *)
 Proof. vm_compute. reflexivity. Qed.
@@ -51,4 +194,90 @@ Proof. vm_compute. reflexivity. Qed.
 Example ex_num_neg : write_number_signed (-1) 12 = [128;0;0;0;255;255;255;255;255;255;255;255].
 Proof. vm_compute. reflexivity. Qed.
 Example ex_num_rd_neg : option_map s64_of_u64 (read_number [255;255;255;255;255;255;255;255;255;255;255;254]) = Some (-2)%Z.
+Proof. vm_compute. reflexivity. Qed.
+
+(* a symlink with a 120-byte name, a 150-byte target, two xattrs (one value
+   with NUL, '=' and newline), uid needing base-256, negative mtime: the
+   writer emits 'x', 'K', 'L' records and the header, 8 blocks in all, and
+   the reader returns the entry *)
+Definition ex_entry : entry :=
+  mkentry (repeat 97 120) (S_IFLNK + 511) 4294967295 70000 150 (-5)%Z 0 false.
+Definition ex_target : list N := repeat 98 150.
+Definition ex_xattrs : list xattr := [([117;115;101;114;46;97], [1;0;61;10;255]); ([117;115;101;114;46;98], [])].
+
+Example ex_header_blocks :
+  match write_tar_header ex_entry (Some ex_target) ex_xattrs 7 with
+  | W_Ok b => length b = 3584%nat
+  | W_Unsupported => False
+  end.
+Proof. vm_compute. reflexivity. Qed.
+
+Example ex_header_rt :
+  match write_tar_header ex_entry (Some ex_target) ex_xattrs 7 with
+  | W_Ok b => read_header (b ++ [1;2;3]) = RH_Ok (decoded_of ex_entry (Some ex_target) ex_xattrs) [1;2;3]
+  | W_Unsupported => False
+  end.
+Proof. vm_compute. reflexivity. Qed.
+
+Example ex_wf : wf_entry ex_entry (Some ex_target) ex_xattrs.
+Proof.
+  assert (NN : forall l, forallb (fun c => negb (c =? 0)) l = true -> no_nul l).
+  { intros l H Hin. rewrite forallb_forall in H. specialize (H 0 Hin). discriminate. }
+  assert (BB : forall l, forallb (fun c => c <? 256) l = true -> Forall byte_ok l).
+  { intros l H. apply Forall_forall. intros x Hx. rewrite forallb_forall in H. apply N.ltb_lt. auto. }
+  assert (KK : forall l, forallb (fun c => negb (c =? 0) && negb (c =? 61)) l = true -> key_ok l).
+  { intros l H c Hc. rewrite forallb_forall in H. specialize (H c Hc). apply andb_prop in H.
+    destruct H as [H1 H2]. split; intro E; subst; discriminate. }
+  constructor.
+  - split; [apply NN|apply BB]; vm_compute; reflexivity.
+  - vm_compute; discriminate.
+  - vm_compute; reflexivity.
+  - vm_compute; reflexivity.
+  - vm_compute; reflexivity.
+  - vm_compute; reflexivity.
+  - vm_compute; split; reflexivity.
+  - vm_compute; reflexivity.
+  - intros _. exists ex_target. split; [reflexivity|]. split; [split; [apply NN|apply BB]; vm_compute; reflexivity|].
+    vm_compute. discriminate.
+  - constructor; [split; [apply KK; vm_compute; reflexivity|vm_compute; reflexivity]|constructor; [split; [apply KK; vm_compute; reflexivity|vm_compute; reflexivity]|constructor]].
+  - vm_compute; discriminate.
+Qed.
+
+(* a socket is refused *)
+Example ex_socket : write_tar_header (mkentry [115] (S_IFSOCK + 420) 0 0 0 0%Z 0 false) None [] 0 = W_Unsupported.
+Proof. vm_compute. reflexivity. Qed.
+
+(* old-GNU style map with two data regions and a trailing hole, read in
+   3-byte pieces from a stream that buffers 2 bytes at a time *)
+Example ex_sparse :
+  stream_go (repeat (2, 1, 2) 20) [(2, 3); (7, 2); (12, 0)] 12 0 [11;12;13;14;15;99] [] =
+  S_Done [0;0;11;12;13;0;0;14;15;0;0;0] [99] 12.
+Proof. vm_compute. reflexivity. Qed.
+Example ex_sparse_wf : wf_map 0 [(2, 3); (7, 2); (12, 0)] 12.
+Proof. vm_compute. repeat split; discriminate. Qed.
+(* a map that claims more data than the file is long is clipped *)
+Example ex_sparse_clipped :
+  stream_go (repeat (two64, two64, two64) 5) [(7, 100)] 10 0 [1;2;3;4;5;6] [] = S_Done [0;0;0;0;0;0;0;1;2;3] [4;5;6] 10.
+Proof. vm_compute. reflexivity. Qed.
+
+(* a two-entry archive: directory and a 3-byte file; 4 blocks + terminator *)
+Definition ex_archive : list tentry :=
+  [mkte (mkentry [100;47] (S_IFDIR + 493) 0 0 0 0%Z 0 false) None [] [];
+   mkte (mkentry [100;47;102] (S_IFREG + 420) 1000 1000 3 1700000000%Z 0 false) None [] [104;105;10]].
+Example ex_archive_len : length (write_archive ex_archive) = 2560%nat.
+Proof. vm_compute. reflexivity. Qed.
+Example ex_archive_rt : read_archive (write_archive ex_archive) = RA_Ok (views ex_archive).
+Proof. vm_compute. reflexivity. Qed.
+Example ex_archive_names :
+  map (fun t => e_name (te_e t)) (views ex_archive) = [[100]; [100;47;102]].
+Proof. vm_compute. reflexivity. Qed.
+
+(* --root-becomes r: "r/b/f" -> "/b/f", "../x" and "/etc" stay *)
+Example ex_retarget_1 : retarget [114] [114;47;98;47;102] = [47;98;47;102].
+Proof. vm_compute. reflexivity. Qed.
+Example ex_retarget_2 : retarget [114] [46;46;47;120] = [46;46;47;120].
+Proof. vm_compute. reflexivity. Qed.
+Example ex_retarget_3 : retarget [114] [47;101;116;99] = [47;101;116;99].
+Proof. vm_compute. reflexivity. Qed.
+Example ex_retarget_old : retarget_old [114] [46;47;97;47;46;46;47;98] = [97;47;97;47;46;46;47;98].
 Proof. vm_compute. reflexivity. Qed.
